@@ -538,7 +538,17 @@ def oracle_c11(im, ops=None):
 
 def oracle_c12(im, ops=None):
     fs = []
+    held = {}
     for i, r in steps(im):
+        if r["kind"] == "recv":
+            wn = wake_node(r)
+            if wn is not None and not any(not ok for _, ok in r["writes"]):
+                lines = [w for w, _ in r["writes"]]
+                for key in [k for k in held if k[0] == wn]:
+                    if enc(held[key]) not in lines:
+                        fs.append(F("C12:held-not-delivered", f"send of {held[key]} was held for sleeping node {wn}; the node woke ({r['line']!r}) and the command was not written (writes {lines})", i))
+                    held.pop(key)
+            continue
         if r["kind"] != "send":
             continue
         fields = r["fields"]
@@ -553,6 +563,8 @@ def oracle_c12(im, ops=None):
         want = enc(fields)
         written = [w for w, ok in r["writes"] if ok]
         if written == [want]:
+            if k == 1 and r["buffered"]:
+                held.pop((n, c, t), None)   # superseded by the newer value just written
             continue
         if written:
             fs.append(F("C12:wrong-line", f"send of {fields} wrote {written}, expected {[want]}", i))
@@ -561,7 +573,8 @@ def oracle_c12(im, ops=None):
         sb_b, sb_a = r["before"]["sbuf"] or {}, r["after"]["sbuf"] or {}
         node = r["before"]["nodes"].get(n)
         if k == 1 and sb_a.get(key) == tuple(fields) and node and node["sleeping"]:
-            continue  # held for a sleeping destination; C07 shows it goes out at the next wake
+            held[key] = tuple(fields)   # held for a sleeping destination: must go out at its next wake
+            continue
         ib_a = r["after"]["ibuf"] or {}
         if k == 3 and r["buffered"] and ib_a.get(key) == tuple(fields):
             fs.append(F("C12:internal-parked", f"send of internal message {fields} with buffering allowed wrote nothing, raised nothing and only stored it in internal_messages, which no code path ever writes", i))
